@@ -1,0 +1,23 @@
+//go:build !verif
+// +build !verif
+
+// Package verifhook provides observation points for external runtime
+// monitors. Without the build tag `verif' every function is empty and
+// is inlined away.
+package verifhook
+
+const Enabled = false
+
+// Tick marks one iteration of a loop without a static bound.
+func Tick(site string) {}
+
+// Yield marks a point inside or between parallel jobs where a monitor
+// may perturb the schedule.
+func Yield(site string) {}
+
+// Event reports that the contribution of `item' is accumulated by the
+// worker with thread id `thread'.
+func Event(site string, item int, thread int) {}
+
+// Count marks that a structural case (e.g. a tree rotation) was taken.
+func Count(site string) {}
